@@ -89,9 +89,13 @@ fn opt(v: Option<i64>) -> Sexp {
     }
 }
 
-pub fn run(c: &Sexp) -> Sexp {
+pub fn reset() {
     exec::reset();
     srvfn::reset();
+}
+
+pub fn run(c: &Sexp) -> Sexp {
+    reset();
     let owner = Owner::new();
     let out = owner.with(|| match c.at(0).num() {
         0 => single(c.at(1).num(), c.at(2)),
